@@ -220,6 +220,8 @@ class Kernel:
         self.timer_fires = 0
         self.jumps = 0
         self.spins = 0
+        self.trace_on = True             # line/opcode preemption enabled (off for 1-task runs)
+        self.opcode_on = False
         self.last_progress = 0           # last step that was not a failed native try-lock
 
     # -- logging ---------------------------------------------------------
